@@ -909,3 +909,11 @@ func Subst(t *Term, m map[*Atom]*Term) *Term {
 	}
 	return Div(sp(t.N), sp(t.D))
 }
+
+// ParseAtomString returns the term of an interned atom by its key (or a fresh symbol if unknown).
+func ParseAtomString(key string) *Term {
+	if a, ok := atoms[key]; ok {
+		return fromAtom(a)
+	}
+	return Sym(key)
+}
